@@ -127,6 +127,7 @@ class Epoch:
         gen.CTRL['raise'] = None
         self.stepno += 1
         gen.CTRL['gen'] = self.stepno if self.opts.get('gens') else None
+        self._ev0 = len(self.trace.ev) if getattr(self, 'trace', None) is not None else 0
         out = {'err': None, 'value': None}
         if name == 'AddChain':
             sl = self.slots[act['s']]
@@ -344,6 +345,22 @@ def _runinfo_check(self, act, exp, real_runs):
     for e in gen.RUNLOG:  # the latest ATTEMPT per computation (a failed one rewrites the log, by design: "last run")
         if known_all.get(e['obj']) is not None:
             self.producer.setdefault('attempt', {})[known_all[e['obj']]] = e['seq']
+    # requests that raised in this call (recorded at the observation boundary): their tasks began an attempt - the log
+    # handler was attached, truncating the log - that did not finish, even if the body of run was never reached
+    failed = self.producer.setdefault('failed', {})
+    if getattr(self, 'trace', None) is not None:
+        by_tid = {}
+        for sl in self.slots.values():
+            for ch in sl['chains']:
+                for t in set(ch.tasks.values()):
+                    k = getattr(t, '_tcverif_tid', None)
+                    if k is not None and id(t) in sl['objd']:
+                        by_tid[k[1]] = sl['objd'][id(t)]
+        for ev in self.trace.ev[self._ev0:]:
+            if ev[0] == 'DX' and ev[1] in by_tid:
+                failed[by_tid[ev[1]]] = True
+            elif ev[0] == 'DE' and ev[1] in by_tid and any(x[0] == 'P' and x[1] == ev[1] for x in self.trace.ev[self._ev0:]):
+                failed.pop(by_tid[ev[1]], None)
     if len(entries) == len(succ):
         by_d = {}
         known = {}
@@ -400,7 +417,7 @@ def _runinfo_check(self, act, exp, real_runs):
         if (info.get('config') or {}).get('namespace') not in namespaces:
             mm.append(('runinfo', f"run info of {label} names namespace {(info.get('config') or {}).get('namespace')!r}, "
                                   f'the computation is declared under {sorted(map(str, namespaces))}'))
-        if not latest_attempt_succeeded:
+        if not latest_attempt_succeeded or self.producer.get('failed', {}).get(d):
             continue  # the log is that of the latest (failed) attempt; the property speaks of successful runs
         try:
             raw = (p.parent / f'{stem}.log').read_bytes()
@@ -408,8 +425,6 @@ def _runinfo_check(self, act, exp, real_runs):
             mm.append(('log', f'log of {label} unreadable: {ex}'))
             continue
         text = raw.decode('utf8', 'replace')
-        if 'run started' in text and 'run ended' not in text:
-            continue  # the latest attempt began (its inputs failed before the body ran) and did not finish: "last run"
         lines = [l.split('USER ', 1)[1].strip() for l in text.splitlines() if 'USER ' in l]
         want_lines = [f"{m.slug(d)} run#{e['seq']} m0", f"{m.slug(d)} run#{e['seq']} m1"]
         if lines != want_lines or b'\x00' in raw:
@@ -504,7 +519,7 @@ def replay(model: Model, behaviour, opts=None, final=True, tag='b'):
                     recorded.append(events)
                 opts = dict(opts, _genof=genof, _stepno=stepno)
                 if opts.get('runinfo'):
-                    opts = dict(opts, _producer={d: ({k: v for k, v in e.items() if k in ('seq', 'slug')} if d != 'attempt' else e)
+                    opts = dict(opts, _producer={d: ({k: v for k, v in e.items() if k in ('seq', 'slug')} if d not in ('attempt', 'failed') else e)
                                                  for d, e in producer.items()})
             except ChildCrashed as e:
                 return dict(mismatches=[('error', f'interpreter died: {e}')], at=i, steps=len(behaviour))
